@@ -12,11 +12,17 @@ from . import build
 class Violation(Exception):
     """Raised by an oracle.  bucket = root-cause fingerprint."""
 
-    def __init__(self, bucket, case, detail):
+    def __init__(self, bucket, case, detail, fatal=False):
         Exception.__init__(self, '%s: %s' % (bucket, detail))
         self.bucket = bucket
         self.case = case
         self.detail = detail
+        # fatal: every further case would cost a time-out too; record, do not shrink, stop
+        self.fatal = fatal or 'does-not-terminate' in bucket or 'timeout' in bucket
+
+
+class _Stop(BaseException):
+    pass
 
 
 def jsonable(x, depth=0):
@@ -181,6 +187,9 @@ def hyp_run(ctx, res, strategy, body, max_examples, label='', max_buckets=None,
                 if v.bucket in excluded:
                     res.excluded[v.bucket] += 1
                     return
+                if v.fatal:
+                    res.violation(v)
+                    raise _Stop()
                 if state['bucket'] is None:
                     state['bucket'] = v.bucket
                     state['t_first'] = time.time()
@@ -205,6 +214,8 @@ def hyp_run(ctx, res, strategy, body, max_examples, label='', max_buckets=None,
                            phases=(Phase.generate, Phase.shrink))(wrapped)
         try:
             wrapped()
+        except _Stop:
+            break
         except Violation as v:
             res.violation(v)
             found.append(v.bucket)
@@ -240,6 +251,8 @@ def loop_run(ctx, res, cases, body, max_buckets=None):
                 continue
             seen.add(v.bucket)
             res.violation(v)
+            if v.fatal:
+                break
             if max_buckets and len(seen) >= max_buckets:
                 break
 
